@@ -31,8 +31,27 @@ USER_SECS = {
 }
 
 
+def managed_keys():
+    """keys the generator itself writes into [Unit]/[Service] (read off convert.rs), so that user values for exactly these keys are generated"""
+    import re, os
+    out = {'Unit': set(), 'Service': set()}
+    try:
+        src = open(os.path.join(core.REPO, 'src', 'quadlet', 'convert.rs')).read()
+        for sec, key in re.findall(r'\.(?:set|add|prepend|add_raw|lookup|lookup_last|lookup_bool|has_key)\(\s*(SERVICE_SECTION|UNIT_SECTION),\s*"(\w+)"', src):
+            out['Service' if sec.startswith('SERVICE') else 'Unit'].add(key)
+    except OSError:
+        pass
+    return out
+
+
 def gen_unit(ctx, ty):
     rnd = ctx.rnd
+    if not hasattr(ctx, '_managed'):
+        ctx._managed = managed_keys()
+        for sec in ('Unit', 'Service'):
+            for k in sorted(ctx._managed[sec]):
+                # every managed key with an ordinary value, with an empty assignment, and with a value followed by an empty one
+                USER_SECS[sec] += [f'{k}=', f'{k}=x', f'{k}=yes', f'{k}=no']
     own = ['[' + G.SEC[ty] + ']'] + list(G.BASE[ty])
     for _ in range(rnd.randint(0, 3)):
         k = rnd.choice(ctx.tables['supported'][G.SUP[ty]])
